@@ -18,8 +18,8 @@ MCNext ==
   \/ \E t \in Txns, m \in {"w", "r"} : Step(Begin(t, m))
   \/ \E t \in Txns : Step(Arm(t))
   \/ \E t \in Txns, s \in Stores, u \in BOOLEAN : Step(NewStoreBegin(t, s, u))
-  \/ \E t \in Txns, s \in Stores, u \in BOOLEAN, ok \in BOOLEAN : Step(NewStore(t, s, u, ok))
-  \/ \E t \in Txns, s \in Stores, ok \in BOOLEAN : Step(OpenStore(t, s, ok))
+  \/ \E t \in Txns, s \in Stores, u \in BOOLEAN, ok \in BOOLEAN : Step(NewStore(t, s, u, ok, ""))
+  \/ \E t \in Txns, s \in Stores, ok \in BOOLEAN : Step(OpenStore(t, s, ok, ""))
   \/ \E t \in Txns, s \in Stores, k \in Keys, v \in Vals, ok \in BOOLEAN :
         \/ OpStep(Add(t, s, k, v, ok)) \/ OpStep(AddIfNotExist(t, s, k, v, ok))
         \/ OpStep(Update(t, s, k, v, ok)) \/ OpStep(Upsert(t, s, k, v, ok))
